@@ -47,13 +47,12 @@ let obs_str = function
   | OMiss -> "miss"
   | OOnlyIfCached -> "oic"
 let cfg_str (c : config) : string =
-  let r = c.c_rule in
+  (* the directives of the default configuration as the cache manager's config action names them; the last four are
+     modelling assumptions (features the model leaves out must be off, and no refresh_pattern line may exist) *)
   String.concat " " [
     "max_stale=" ^ string_of_z c.c_max_stale; "minimum_expiry_time=" ^ string_of_z c.c_min_expiry;
     "refresh_all_ims=" ^ bz c.c_refresh_all_ims; "reload_into_ims=" ^ bz c.c_reload_into_ims; "offline_mode=" ^ bz c.c_offline;
-    "rule=" ^ string_of_z r.r_min ^ "/" ^ string_of_z r.r_max ^ "/" ^ string_of_z r.r_max_stale;
-    "ruleflags=" ^ String.concat "" (List.map bz [r.r_refresh_ims; r.r_store_stale; r.r_override_expire; r.r_override_lastmod;
-                                                  r.r_reload_into_ims; r.r_ignore_reload; r.r_ignore_no_store; r.r_ignore_private]) ]
+    "negative_ttl=0"; "vary_ignore_expire=0"; "collapsed_forwarding=0"; "refresh_pattern_lines=0" ]
 
 let () =
   reg "refresh.hist" (fun (c :: steps) ->
